@@ -11,3 +11,7 @@ type cedarASTPolicy = pubast.Policy
 
 // NewPolicy compiles an x/exp/ast policy through the public constructor.
 func NewPolicy(p *ast.Policy) *cedar.Policy { return cedar.NewPolicyFromAST((*pubast.Policy)(p)) }
+
+// Levels records the evidence level per property where it is not "exploration" (must agree
+// with MANIFEST level_claimed.category).
+var Levels = map[string]string{"C05": "fault_enumeration", "C10": "fault_enumeration", "C16": "fault_enumeration", "C18": "fault_enumeration"}
